@@ -684,6 +684,37 @@ def _taint(v, seen=None):
             _taint(x, seen)
 
 
+class NTType:
+    """a record type made by collections.namedtuple at module level: its field names in order"""
+
+    def __init__(self, name, fields):
+        self.name = name
+        self.fields = tuple(fields)
+
+    def __repr__(self):
+        return "NTType(%s%r)" % (self.name, self.fields)
+
+    def make(self, vals):
+        return NTup(self, vals)
+
+
+class NTup(tuple):
+    """an instance of such a record: a tuple whose elements can also be read by field name"""
+
+    def __new__(cls, typ, vals):
+        t = tuple.__new__(cls, vals)
+        t.typ = typ
+        t.fields = typ.fields
+        return t
+
+
+def _has_yield(fn):
+    """the function is a generator; 'from': it delegates to another one (not followed)"""
+    from vcheck.core import walk_no_nested
+    kinds = {type(x) for st in fn.body for x in walk_no_nested(st) if isinstance(x, (ast.Yield, ast.YieldFrom))}
+    return "from" if ast.YieldFrom in kinds else bool(kinds)
+
+
 def _terminates(block):
     if not block:
         return False
@@ -707,6 +738,7 @@ class BEnv(symx.Env):
     def __init__(self, se, fi, mod, vars_, flags, depth=0):
         symx.Env.__init__(self, se, fi, mod, vars_, flags, depth=depth)
         self.cur = sp.true
+        self.on_yield = None     # set while the function is run as the generator a loop of its caller iterates over
 
     @property
     def bs(self):
@@ -738,6 +770,11 @@ class BEnv(symx.Env):
         if isinstance(st, ast.Continue):
             return [(cond, _CONT)]
         try:
+            if isinstance(st, ast.Expr) and isinstance(st.value, ast.Yield) and self.on_yield is not None:
+                # the generator hands a value to the loop that iterates over it: the loop body runs here, under this path condition
+                self.on_yield(self.ev(st.value.value) if st.value.value is not None else None, cond)
+                self.cur = cond
+                return []
             return symx.Env.exec_stmt(self, st, cond)
         except symx.Unsupported as e:
             self._skip(st, e)
@@ -766,6 +803,9 @@ class BEnv(symx.Env):
             finally:
                 self.bs.gen_active = False
             return [(c, v) for c, v in rs if v is not _CONT]
+        g = self._generator_callee(st.iter)
+        if g is not None:
+            return self._for_over_generator(st, cond, *g)
         it = self.ev(st.iter)
         if isinstance(it, dict):
             it = list(it.keys())
@@ -776,6 +816,164 @@ class BEnv(symx.Env):
                 rets += [(c, x) for c, x in self.exec_body(st.body, cond) if x is not _CONT]
             return rets
         raise symx.Unsupported("C14: loop over `%s` at %s" % (norm(st.iter), self.where(st)))
+
+    def _generator_callee(self, it):
+        """(FuncInfo, is a method of the object) when the iterable is a call of a generator function of the package"""
+        if not isinstance(it, ast.Call):
+            return None
+        d = dotted_name(it.func)
+        if not d or self.depth >= self.se.inline_depth:
+            return None
+        repo = self.se.repo
+        full = repo.resolve_name(self.mod, d)
+        tgt, method = None, False
+        if d.split(".")[0] in self.vars and not d.startswith("self."):
+            return None
+        if repo.has(full) and full not in self.se.opaque:
+            tgt = repo.func(full)
+        elif d.startswith("self.") and d.count(".") == 1 and self.fi is not None and self.fi.cls and d[5:] not in self.bs.intercept:
+            cand = "%s.%s.%s" % (self.fi.module.name, self.fi.cls, d[5:])
+            if repo.has(cand) and cand not in self.se.opaque:
+                tgt, method = repo.func(cand), True
+        if tgt is None or _has_yield(tgt.node) is not True:
+            return None
+        return tgt, method
+
+    def _bind_call(self, c, tgt, method):
+        """the callee's environment for a call followed with this evaluator"""
+        static = any(isinstance(x, ast.Name) and x.id == "staticmethod" for x in tgt.node.decorator_list)
+        params = [p for p in tgt.params if not p.startswith("*")][1 if (method and not static) else 0:]
+        vals = []
+        for a in c.args:
+            if isinstance(a, ast.Starred):
+                v = self.ev(a.value)
+                if not isinstance(v, (list, tuple)):
+                    raise symx.Unsupported("C14: *%s at %s" % (norm(a.value), self.where(c)))
+                vals += list(v)
+            else:
+                vals.append(self.ev(a))
+        bind = dict(zip(params, vals))
+        for k in c.keywords:
+            if k.arg:
+                bind[k.arg] = self.ev(k.value)
+        if method:
+            for k2, v2 in self.vars.items():
+                if k2 == "self" or k2.startswith("self."):
+                    bind[k2] = v2
+        env = type(self)(self.se, tgt, tgt.module, dict(bind), {}, depth=self.depth + 1)
+        for p in tgt.params:
+            pn = p.lstrip("*")
+            if pn not in env.vars and pn in tgt.defaults:
+                env.vars[pn] = env.ev(tgt.defaults[pn])
+        return env
+
+    def _for_over_generator(self, st, cond, tgt, method):
+        """`for T in gen(args): BODY` is gen's body with every `yield e` replaced by `T = e; BODY`: the generator is run with this
+        evaluator and each yield runs the loop body under the path condition the yield stands under (one generic bin when the
+        generator loops over the bins).  A value the body rebinds is not known after the loop."""
+        env = self._bind_call(st.iter, tgt, method)
+        before = dict(self.vars)
+        rets = []
+
+        def on_yield(v, c):
+            self.assign(st.target, v, st)
+            rets.extend((cc, x) for cc, x in self.exec_body(st.body, c) if x is not _CONT)
+
+        env.on_yield = on_yield
+        env.exec_body(tgt.node.body, cond)
+        if method:
+            for k2, v2 in env.vars.items():
+                if k2.startswith("self."):
+                    self.vars[k2] = v2
+        for x in [st.target] + list(st.body):
+            for n in ast.walk(x):
+                if isinstance(n, ast.Name) and isinstance(n.ctx, ast.Store) and n.id in self.vars and self.vars[n.id] is not before.get(n.id):
+                    self.vars[n.id] = symx.Opaque("assigned in a loop over a generator")
+        if st.orelse:
+            rets += self.exec_body(st.orelse, cond)
+        self.cur = cond
+        return rets
+
+    # ---- records (collections.namedtuple) ----------------------------------------------------------------------------------------
+    def _namedtuple_type(self, e):
+        """the record type a name stands for: a module-level `T = namedtuple('T', fields)` of the package"""
+        d = dotted_name(e)
+        if not d or d.split(".")[0] in self.vars or d.split(".")[0] in self.pins:
+            return None
+        repo = self.se.repo
+        mod, name = self.mod, d
+        if "." in d or d not in mod.consts:
+            full = repo.resolve_name(self.mod, d)
+            mname, _, name = full.rpartition(".")
+            mod = repo.modules.get(mname)
+            if mod is None or name not in mod.consts:
+                return None
+        cache = self.se.__dict__.setdefault("_ntcache", {})
+        key = (mod.name, name)
+        if key not in cache:
+            cache[key] = self._parse_namedtuple(mod, mod.consts[name])
+        return cache[key]
+
+    def _parse_namedtuple(self, mod, val):
+        if not isinstance(val, ast.Call):
+            return None
+        dn = dotted_name(val.func)
+        if not dn or self.se.repo.resolve_name(mod, dn) != "collections.namedtuple":
+            return None
+        if any(k.arg not in ("typename", "field_names") for k in val.keywords):
+            return None          # rename= / defaults= / module=: not modelled
+        tn = val.args[0] if val.args else kwarg(val, "typename")
+        fn = val.args[1] if len(val.args) > 1 else kwarg(val, "field_names")
+        if len(val.args) > 2 or not isinstance(tn, ast.Constant) or fn is None:
+            return None
+        if isinstance(fn, ast.Constant) and isinstance(fn.value, str):
+            fields = fn.value.replace(",", " ").split()
+        elif isinstance(fn, (ast.List, ast.Tuple)) and all(isinstance(x, ast.Constant) and isinstance(x.value, str) for x in fn.elts):
+            fields = [x.value for x in fn.elts]
+        else:
+            return None
+        if not fields or len(set(fields)) != len(fields) or not all(f.isidentifier() and not f.startswith("_") for f in fields):
+            return None
+        return NTType(str(tn.value), fields)
+
+    def _record_call(self, c):
+        """construction of a record T(...), T._make(seq), and the methods rec._asdict() / rec._replace(...); NotImplemented when
+        the call is none of these"""
+        f = c.func
+        typ = self._namedtuple_type(f) if isinstance(f, (ast.Name, ast.Attribute)) else None
+        if typ is not None:
+            vals = []
+            for a in c.args:
+                if isinstance(a, ast.Starred):
+                    v = self.ev(a.value)
+                    if not isinstance(v, (list, tuple)):
+                        raise symx.Unsupported("C14: *%s at %s" % (norm(a.value), self.where(c)))
+                    vals += list(v)
+                else:
+                    vals.append(self.ev(a))
+            kws = {k.arg: self.ev(k.value) for k in c.keywords if k.arg}
+            if any(k.arg is None for k in c.keywords) or len(vals) > len(typ.fields) or any(k not in typ.fields[len(vals):] for k in kws) \
+                    or len(vals) + len(kws) != len(typ.fields):
+                raise symx.Unsupported("C14: construction of the record %s at %s" % (typ.name, self.where(c)))
+            return typ.make(vals + [kws[k] for k in typ.fields[len(vals):]])
+        if isinstance(f, ast.Attribute) and f.attr in ("_make", "_asdict", "_replace"):
+            if f.attr == "_make":
+                typ = self._namedtuple_type(f.value) if isinstance(f.value, (ast.Name, ast.Attribute)) else None
+                if typ is not None and len(c.args) == 1 and not c.keywords:
+                    v = self.ev(c.args[0])
+                    if isinstance(v, (list, tuple)) and len(v) == len(typ.fields):
+                        return typ.make(list(v))
+                    raise symx.Unsupported("C14: %s._make at %s" % (typ.name, self.where(c)))
+                return NotImplemented
+            rec = self.vars.get(f.value.id) if isinstance(f.value, ast.Name) else None
+            if isinstance(rec, NTup):
+                if f.attr == "_asdict" and not c.args and not c.keywords:
+                    return dict(zip(rec.fields, rec))
+                if f.attr == "_replace" and not c.args and all(k.arg in rec.fields for k in c.keywords):
+                    kws = {k.arg: self.ev(k.value) for k in c.keywords}
+                    return rec.typ.make([kws.get(n, v) for n, v in zip(rec.fields, rec)])
+                raise symx.Unsupported("C14: %s of a record at %s" % (f.attr, self.where(c)))
+        return NotImplemented
 
     def _generic_range(self, it):
         if isinstance(it, ast.Call) and isinstance(it.func, ast.Name) and it.func.id == "range" and not it.keywords and 1 <= len(it.args) <= 2:
@@ -828,6 +1026,20 @@ class BEnv(symx.Env):
             n = self._count(self.ev(e.value))
             if n is not None:
                 return n
+        if isinstance(e, ast.Attribute) and isinstance(e.value, ast.Name) and isinstance(self.vars.get(e.value.id), NTup) and norm(e) not in self.vars:
+            rec = self.vars[e.value.id]
+            if e.attr in rec.fields:
+                return rec[rec.fields.index(e.attr)]
+            if e.attr == "_fields":
+                return rec.fields
+        if isinstance(e, ast.Attribute) and e.attr == "_fields" and isinstance(e.value, (ast.Name, ast.Attribute)):
+            typ = self._namedtuple_type(e.value)
+            if typ is not None:
+                return typ.fields
+        if isinstance(e, ast.Name) and e.id not in self.vars and e.id not in self.pins and e.id not in self.flags and e.id in self.mod.consts:
+            typ = self._namedtuple_type(e)
+            if typ is not None:
+                return typ
         return symx.Env.ev(self, e, stmt_level)
 
     def subscript(self, base, idx, e):
@@ -964,6 +1176,9 @@ class BEnv(symx.Env):
         d = dotted_name(f)
         repo = self.se.repo
         full = repo.resolve_name(self.mod, d) if d else ""
+        r = self._record_call(c)
+        if r is not NotImplemented:
+            return r
         if full.startswith("numpy.") and nm in ("zeros", "ones", "empty", "full") and c.args:
             n = self.ev(c.args[0])
             if symx._is_expr(n) and not sp.sympify(n).is_number:
@@ -1901,14 +2116,112 @@ def keys(chk, fi, runs):
 # ---------------------------------------------------------------------------------------------------------------------------------
 # equal-occupancy binning
 # ---------------------------------------------------------------------------------------------------------------------------------
-def _hist_by_num_run(repo, fi, mergelast):
-    dh = repo.func(ST + "Binner._do_hist")
+def _self_key_stores(fi):
+    """constant keys k of stores self[k] = ... / self[k] op= ... made in a method"""
+    out = set()
+    me = _positional(fi, False)[:1]
+    for n in ast.walk(fi.node):
+        ts = n.targets if isinstance(n, ast.Assign) else [n.target] if isinstance(n, (ast.AugAssign, ast.AnnAssign)) else []
+        for t in ts:
+            for x in (t.elts if isinstance(t, (ast.Tuple, ast.List)) else [t]):
+                if isinstance(x, ast.Subscript) and isinstance(x.value, ast.Name) and x.value.id in me \
+                        and isinstance(x.slice, ast.Constant) and isinstance(x.slice.value, str):
+                    out.add(x.slice.value)
+    return out
+
+
+def _self_calls(fi):
+    """names m of the calls self.m(...) made in a method"""
+    me = _positional(fi, False)[:1]
+    return {n.func.attr for n in ast.walk(fi.node) if isinstance(n, ast.Call) and isinstance(n.func, ast.Attribute)
+            and isinstance(n.func.value, ast.Name) and n.func.value.id in me}
+
+
+_ENGINE_ENTRY = ("_chist.chist",)          # the C histogram routine (esutil/stat/chist_pywrap.c)
+
+
+class Methods:
+    """the private methods of Binner the rules are about, found by what they do and not by what they are called (a private method
+    may be renamed): the ENGINE wrapper is the method that calls the C histogram routine _chist.chist; the EQUAL-OCCUPANCY method
+    is the one that records self['nperbin']; the MERGE method is the other method, called from there, that replaces self['hist'].
+    Where a handle does not single out one method the documented names are used."""
+
+    def __init__(self, repo):
+        ms = {q: f for q, f in repo.funcs.items() if f.cls == "Binner" and q.startswith(ST + "Binner.")}
+        public = {ST + "Binner." + n for n in ("dohist", "calc_stats", "__init__")}
+
+        def pick(cands, default):
+            cands = sorted(c for c in cands if c not in public)
+            if len(cands) == 1:
+                return cands[0]
+            return ST + "Binner." + default
+
+        eng = set()
+        for q, f in ms.items():
+            for n in ast.walk(f.node):
+                if isinstance(n, ast.Call):
+                    d = dotted_name(n.func)
+                    if d and repo.resolve_name(f.module, d).endswith(_ENGINE_ENTRY):
+                        eng.add(q)
+        self.engine = pick(eng, "_do_hist")
+        self.by_num = pick({q for q, f in ms.items() if "nperbin" in _self_key_stores(f)}, "_hist_by_num")
+        called = {ST + "Binner." + m for m in _self_calls(ms[self.by_num])} if self.by_num in ms else set()
+        self.merge = pick({q for q, f in ms.items() if q in called and q not in (self.engine, self.by_num)
+                           and "hist" in _self_key_stores(f)}, "_merge_last")
+        self.engine_name, self.by_num_name, self.merge_name = (q.rsplit(".", 1)[1] for q in (self.engine, self.by_num, self.merge))
+
+
+def _engine_roles(dh):
+    """parameter of the engine wrapper -> what it means, read off the call of the C routine chist(data, dmin, sortind, binsize, hist,
+    revind): the parameters handed on in the first four places, the one that sizes the array of counts, and the flag that is left.
+    The documented names are the fallback."""
+    names = ("data", "dmin", "sortind", "bsize")
+    params = [p for p in dh.params if not p.startswith("*")][1:]
+    roles = {}
+    calls = [n for n in ast.walk(dh.node) if isinstance(n, ast.Call) and (dotted_name(n.func) or "").endswith(_ENGINE_ENTRY)]
+    if len(calls) == 1 and len(calls[0].args) >= 5 and not calls[0].keywords:
+        c = calls[0]
+        for role, a in zip(names, c.args):
+            if isinstance(a, ast.Name) and a.id in params:
+                roles[a.id] = role
+        h = c.args[4]
+        if isinstance(h, ast.Name):
+            defs = [n.value for n in ast.walk(dh.node) if isinstance(n, ast.Assign) and any(isinstance(t, ast.Name) and t.id == h.id for t in n.targets)]
+            sizes = {norm(v.args[0]) for v in defs if isinstance(v, ast.Call) and call_name(v) in ("zeros", "empty") and v.args}
+            if len(defs) >= 1 and len(sizes) == 1 and len(defs) == len([v for v in defs if isinstance(v, ast.Call) and v.args]) \
+                    and next(iter(sizes)) in params:
+                roles[next(iter(sizes))] = "nbin"
+        rest = [p for p in params if p not in roles]
+        if len(roles) == 5 and len(set(roles.values())) == 5 and len(rest) == 1:
+            roles[rest[0]] = "rev"
+            return roles
+    return {p: p for p in params}
+
+
+def _by_num_args(repo, fi, mergelast, ms):
+    """the arguments of the equal-occupancy method: its parameters that Binner.dohist feeds with the public options nperbin /
+    mergelast (by the documented names where the call is not found)"""
+    out = {"nperbin": NPB, "mergelast": mergelast}
+    if repo.has(ST + "Binner.dohist"):
+        dh = repo.func(ST + "Binner.dohist")
+        for call, callee, ctor in _binner_calls(repo, dh):
+            if callee is fi and not ctor:
+                for p, e in (_bind(dh, call, fi, True) or {}).items():
+                    if isinstance(e, ast.Name) and e.id in ("nperbin", "mergelast"):
+                        out[p] = out[e.id]
+    return out
+
+
+def _hist_by_num_run(repo, fi, mergelast, ms):
+    dh = repo.func(ms.engine)
     dparams = [p for p in dh.params if not p.startswith("*")][1:]
+    roles = _engine_roles(dh)
 
     def do_hist(env, c, args, kws):
         bind = {p: env.ev(dh.defaults[p]) for p in dparams if p in dh.defaults}
         bind.update(zip(dparams, args))
         bind.update(kws)
+        bind = {roles.get(p, p): v for p, v in bind.items()}
         nb = bind.get("nbin")
         rv = RevObj(REV, _nidx(nb) if symx._is_expr(nb) else None)
         env.bs.do_hist.append((bind, env.cur, rv))
@@ -1919,25 +2232,25 @@ def _hist_by_num_run(repo, fi, mergelast):
         return None
 
     sd = SelfDict({"wsort": WSORT})
-    return _execute(repo, fi, sd, {"nperbin": NPB, "mergelast": mergelast}, intercept={"_do_hist": do_hist, "_merge_last": merge_last})
+    return _execute(repo, fi, sd, _by_num_args(repo, fi, mergelast, ms), intercept={ms.engine_name: do_hist, ms.merge_name: merge_last})
 
 
 _MERGED_REV_TEXT = ("the merge leaves the reverse indices in the engine's layout for one bin fewer (REV: before the merge, nbin = SIZE(HIST) bins): one element "
                     "fewer, offsets REV[k]-1, last offset REV[nbin]-1, index area unchanged one place earlier")
 
 
-def _merge_last_rules(chk, repo, where, called=True):
+def _merge_last_rules(chk, repo, where, ms, called=True):
     """the two rules about the merge of a short last bin, decided on the method that does it"""
     n = SIZE(WSORT)
-    if not repo.has(ST + "Binner._merge_last") or not called:
-        why = ("no method _merge_last" if not repo.has(ST + "Binner._merge_last") else "_merge_last is not called") + \
+    if not repo.has(ms.merge) or not called:
+        why = ("no method _merge_last" if not repo.has(ms.merge) else "%s is not called" % ms.merge_name) + \
               ", and a merge written out after the call of the histogram engine is not followed"
         chk.ob("R14.5", "_merge_last::merged-bin-count-and-limits", None, where,
                "merged bin: one bin fewer, counts added, low from the predecessor, high from the last bin (%s)" % why)
         chk.ob("R14.5", "_merge_last::needs-two-bins", None, where, "nothing is merged when there is only one bin, and two are enough (%s)" % why)
         chk.ob("R14.5", "_merge_last::reverse-indices-after-merge", None, where, "%s -- %s" % (why, _MERGED_REV_TEXT))
         return
-    ml = repo.func(ST + "Binner._merge_last")
+    ml = repo.func(ms.merge)
     chk.analysed_unit(ml.qualname)
     # the reverse indices before the merge: SIZE(HIST) + 1 offsets, then the index area with at least one datum
     nb, nr = SIZE(HIST), SIZE(REV)
@@ -2011,7 +2324,7 @@ def _merge_last_rules(chk, repo, where, called=True):
 DCASES = [(ml, short, many) for ml in (True, False) for short in (True, False) for many in (True, False)]
 
 
-def _direct_run(repo, fi, ml, short, many):
+def _direct_run(repo, fi, ml, short, many, ms):
     """one case of the case split that decides every test of the function: mergelast on / off, last bin short / full, several bins / one"""
     def do_hist(env, c, args, kws):
         env.bs.do_hist.append(({}, env.cur, None))
@@ -2022,10 +2335,10 @@ def _direct_run(repo, fi, ml, short, many):
         return None
 
     scen = [(AT(COUNTS, NBIN - 1), (NPB - HPOS) if short else NPB), (NBIN, (MPOS + 1) if many else sp.Integer(1))]
-    intercept = {"_do_hist": do_hist}
-    if repo.has(ST + "Binner._merge_last"):
-        intercept["_merge_last"] = merge_last
-    return _execute(repo, fi, SelfDict({"wsort": WSORT}), {"nperbin": NPB, "mergelast": ml}, intercept=intercept, envcls=DEnv, scen=scen)
+    intercept = {ms.engine_name: do_hist}
+    if repo.has(ms.merge):
+        intercept[ms.merge_name] = merge_last
+    return _execute(repo, fi, SelfDict({"wsort": WSORT}), _by_num_args(repo, fi, ml, ms), intercept=intercept, envcls=DEnv, scen=scen)
 
 
 def _dfinal(run):
@@ -2087,9 +2400,9 @@ def _direct_layout(f):
     return out
 
 
-def _equal_occupancy_direct(chk, repo, fi):
+def _equal_occupancy_direct(chk, repo, fi, ms):
     where = fi.where()
-    runs = {case: _direct_run(repo, fi, *case) for case in DCASES}
+    runs = {case: _direct_run(repo, fi, *case, ms) for case in DCASES}
     finals = {case: _dfinal(r) for case, r in runs.items()}
     engine = any(r.bs.do_hist for r in runs.values())
     method = any(r.bs.merges for r in runs.values())            # the merge is done by the method _merge_last
@@ -2170,7 +2483,7 @@ def _equal_occupancy_direct(chk, repo, fi):
 
     # the merged bin
     if method:
-        _merge_last_rules(chk, repo, where)
+        _merge_last_rules(chk, repo, where, ms)
     else:
         case = (True, True, True)
         f, why = finals[case]
@@ -2218,16 +2531,17 @@ def _equal_occupancy_direct(chk, repo, fi):
 
 
 def equal_occupancy(chk, repo):
-    fi = repo.func(ST + "Binner._hist_by_num")
+    ms = Methods(repo)
+    fi = repo.func(ms.by_num)
     chk.analysed_unit(fi.qualname)
     where = fi.where()
-    ron = _hist_by_num_run(repo, fi, True)
-    roff = _hist_by_num_run(repo, fi, False)
+    ron = _hist_by_num_run(repo, fi, True, ms)
+    roff = _hist_by_num_run(repo, fi, False, ms)
     both = (ron, roff)
     n = SIZE(WSORT)
     if not ron.bs.do_hist and not roff.bs.do_hist:
         # the histogram engine is not used: counts, reverse indices and limits are written down directly
-        return _equal_occupancy_direct(chk, repo, fi)
+        return _equal_occupancy_direct(chk, repo, fi, ms)
 
     # the engine call
     res, msg = [], ""
@@ -2333,7 +2647,7 @@ def equal_occupancy(chk, repo):
                 msg = "with mergelast off the merge happens under %s" % (c,)
     chk.ob("R14.5", "_hist_by_num::merge-condition", _verdict(res), where, "the last bin is merged exactly when it is short and mergelast is on (%s)" % (msg or "as found"))
 
-    _merge_last_rules(chk, repo, where, called=bool(ron.bs.merges or roff.bs.merges) or not repo.has(ST + "Binner._merge_last") or bool(ron.error or roff.error))
+    _merge_last_rules(chk, repo, where, ms, called=bool(ron.bs.merges or roff.bs.merges) or not repo.has(ms.merge) or bool(ron.error or roff.error))
 
     # results stored (before the merge reads them)
     res, msg = [], ""
